@@ -581,9 +581,6 @@ package lua
 //@ modifies L.reg.array, L.reg.top, L.reg.array[*]
 
 // table.sort comparator: "calls lt only with elements of t" and uses the truth value of its first result
-//@ trusted lessThan [C04 C18]
-//@ assume lessThan: contract to be verified under C04
-//@ modifies everything
 
 //@ func (lValueArraySorter).Less [C18]
 //@ requires lv.Fn != nil && lv.L != nil && Inv_api(lv.L) && 0 <= i && i < len(lv.Values) && 0 <= j && j < len(lv.Values)
